@@ -185,9 +185,6 @@ func supervise(args []string) int {
 			seed = v
 		}
 	}
-	if t := os.Getenv("VERIF_TIER"); t == "quick" || t == "thorough" {
-		*tier = t
-	}
 	start := time.Now()
 	if err := props.SelfTest(); err != nil {
 		fmt.Printf("INCONCLUSIVE property=%s reason=selftest-failed: %v\n", p.ID, err)
